@@ -1084,6 +1084,13 @@ class Envelope:
         from photon_weave.state.fock import Fock
         from photon_weave.state.polarization import Polarization
 
+        # Check that the state is a part of this envelope
+        if states[0] is not self.fock and states[0] is not self.polarization:
+            raise ValueError(
+                "Given state has to be a member of the envelope, "
+                "use env.fock and env.polarization"
+            )
+
         # Check that correct operation is applied to the correct system
         if isinstance(operation._operation_type, FockOperationType):
             if not isinstance(states[0], Fock):
